@@ -172,6 +172,8 @@ class CallMixin:
         con = ctx.contracts.get(fi.fid)
         recursive = fi.fid in ctx.call_stack
         use_contract = con is not None and (recursive or fi.fid == ctx.cur_fid or (con.opaque and fi.fid not in self.reveal))
+        if use_contract and ctx.inline_all > 0 and con.functional is None and not recursive:
+            use_contract = False
         if use_contract:
             return self.apply_contract(fi, con, args, kwargs, path, node)
         if recursive:
@@ -301,6 +303,7 @@ class CallMixin:
                         ctx.recfuncs[key] = ctx.fresh('S_' + name, res.t.sort())
                         # definitional extension by a fresh constant: globally valid
                         ctx.axioms.append(ctx.recfuncs[key] == res.t)
+                        ctx.definitional.add(id(ctx.axioms[-1]))
                         ctx.named_defs.append((ctx.recfuncs[key], res.t))
                     S_ = ctx.recfuncs[key]
                     named = VSeq(S_, res.elem_kind)
